@@ -317,6 +317,20 @@ def write_evidence(ctx, level="proof", checker_cmd="", trusted_extra=(), violati
     return ev
 
 
+def consts_with_fallback(prop, compute):
+    """constants read from /repo's source by `compute`; if they can no longer be read (the source changed shape), the
+    committed reference values harness/consts/<prop>.json (tools/mkconsts.py) let the spec oracle still hunt for a failing
+    input - the failed extraction itself stays a broken proof obligation (run.py).  Returns (constants, fresh?)."""
+    path = os.path.join(VERIF, "harness", "consts", f"{prop}.json")
+    try:
+        return compute(), True
+    except Exception:
+        if os.path.exists(path):
+            with open(path) as fh:
+                return json.load(fh), False
+        raise
+
+
 def shrink_list(items, fails, max_rounds=200):
     """ddmin-style shrinking of a list while `fails(list)` stays true."""
     items = list(items)
